@@ -65,7 +65,9 @@ def srcRow (f : RFrame) (m : Option Dir) (t : Int) : Option Nat :=
 
 /-- the cell of column `col` of `f` that label `t` receives -/
 def lookF (f : RFrame) (m : Option Dir) (col : RCol) (t : Int) : Option Rat :=
-  (srcRow f m t).bind fun i => (col[i]?).join
+  -- repaired `_df_reindex` (C03-A2): with a fill method a frame is joined as-of COLUMN BY COLUMN, every column on its own
+  -- non-NaN observations, i.e. the source row is that of the one-column frame of `col`
+  (srcRow { idx := f.idx, cols := [("", col)] } m t).bind fun i => (col[i]?).join
 
 def reindexF (f : RFrame) (ix : List Int) (m : Option Dir) : RFrame :=
   { idx := ix, cols := f.cols.map fun c => (c.1, ix.map (lookF f m c.2)) }
